@@ -267,7 +267,7 @@ static int mode_c14(const Caps& D, const Caps& P) {
       // the complete observation (name, dimension, sanity, every parameter and vector, every documented evaluator, init_param)
       // is compared bit for bit with the one of context 0 (empty registry)
       std::string obs0;
-      for (int ctx = 0; ctx < (fixture ? 1 : 9 + (int)cd.size()); ctx++) {
+      for (int ctx = 0; ctx < (fixture ? 1 : 9 + (int)cd.size() + 2); ctx++) {
         fflush(OUT);
         int pfd[2]; if (pipe(pfd)) { perror("pipe"); exit(2); }
         pid_t pid = fork();
@@ -285,7 +285,9 @@ static int mode_c14(const Caps& D, const Caps& P) {
                 case 3: masa_init<S>("h", other); break;
                 case 4: masa_init<S>("h", n); dirty(); masa_init<S>("other", n); masa_select_mms<S>("other"); masa_select_mms<S>("h"); break;
                 case 5: masa_init<S>("other", n); masa_purge_default_param<S>(); break;
-                default: if (ctx >= 9) { std::string first = cd[ctx - 9]; if (first == "masa_test_function" || first == "masa_uninit") first = other; std::string tmpn;
+                default: if (ctx >= 9 + (int)cd.size()) {  // the handle held n, was purged / dirtied, then held another solution (its old instance is gone -- or recycled?)
+                    masa_init<S>("h", n); if (ctx == 9 + (int)cd.size()) masa_purge_default_param<S>(); else dirty(); masa_init<S>("h", other); if (ctx != 9 + (int)cd.size()) masa_init<S>("g", other); }
+                  else if (ctx >= 9) { std::string first = cd[ctx - 9]; if (first == "masa_test_function" || first == "masa_uninit") first = other; std::string tmpn;
                     // contexts 9..: the handle held catalogue entry #k, was asked its name, was re-initialised with another entry without being asked -- and is now initialised with n
                     masa_init<S>("h", first); masa_get_name<S>(&tmpn); masa_init<S>("h", other == first ? std::string("laplace_2d") : other); } break;
                 case 6: masa_init<S>("h", n); dirty(); masa_init<S>("other", other); masa_select_mms<S>("h"); masa_init<S>("other", n); masa_select_mms<S>("h"); break;
